@@ -280,14 +280,14 @@ class StoreModel:
 def _bfs_job(args):
     thorough, order_seed, prefix, depth = args
     m = StoreModel(thorough, order_seed)
-    r = X.bfs(m, depth, prefix=prefix, xcheck_every=1009, max_violations=400)
+    r = X.bfs(m, depth, prefix=prefix, xcheck_every=211, max_violations=400)
     return r
 
 
-def explore_store(thorough, order_seed, depth, split_depth=1):
+def explore_store(thorough, order_seed, depth, split_depth=2):
     m = StoreModel(thorough, order_seed)
     total = X.Result()
-    head = X.bfs(m, min(split_depth, depth), xcheck_every=1009, max_violations=400)
+    head = X.bfs(m, min(split_depth, depth), xcheck_every=211, max_violations=400)
     total.merge(head)
     if depth > split_depth:
         total.complete, total.cap_hit = True, None
@@ -370,12 +370,22 @@ def _tbs(name, app, issue):
     return S.tbs_cert(name, app=list(app) if app is not None else None, issue=ip)
 
 
+def _level_options(dpt, depth, budgets):
+    out = []
+    for app in _subsets(PQ):
+        for issue in _issue_opts(budgets if dpt < depth else budgets[:1]):
+            if dpt == depth and issue is not None and issue[0] == "explicit" and len(issue[1]) > 1:
+                continue
+            out.append((app, issue))
+    return out
+
+
 def _issuing_job(args):
-    """One root configuration; enumerate subjects to the given depth below it."""
-    root_issue, depth, budgets = args
+    """One root configuration and ONE first-level subject below it; enumerate that subject's subtree to ``depth``."""
+    root_issue, first, depth, budgets = args
     be = PythonECDSABackend()
     prev = env.ENV.urandom_state
-    env.seed_urandom("c09-issuing:" + repr(root_issue))
+    env.seed_urandom("c09-issuing:" + repr(root_issue) + repr(first))
     bad = []
     n = verified = refused = raised = 0
     try:
@@ -384,10 +394,7 @@ def _issuing_job(args):
         for dpt in range(1, depth + 1):
             nxt = []
             for issuer, ipath in level:
-                for app in _subsets(PQ):
-                    for issue in _issue_opts(budgets if dpt < depth else budgets[:1]):
-                        if dpt == depth and issue is not None and issue[0] == "explicit" and len(issue[1]) > 1:
-                            continue
+                for app, issue in ([first] if dpt == 1 else _level_options(dpt, depth, budgets)):
                         n += 1
                         label = dict(issuer_path=repr(ipath), app=list(app), issue=repr(issue), depth=dpt)
                         try:
@@ -460,14 +467,16 @@ def run(ctx):
         roots = [("all", b) for b in budgets + ((3,) if not thorough else ())] + \
                 [("explicit", sub, b) for sub in _subsets(PQ) if sub for b in budgets]
         nc = ver = ref = rai = 0
-        for root_issue, n, v, f, x, bad in pool.imap_unordered(_issuing_job, [(ri, 3, budgets) for ri in roots]):
+        ijobs = [(ri, first, 3, budgets) for ri in roots for first in _level_options(1, 3, budgets)]
+        random.Random(ctx.seed).shuffle(ijobs)
+        for root_issue, n, v, f, x, bad in pool.imap_unordered(_issuing_job, ijobs, chunksize=4):
             nc += n
             ver += v
             ref += f
             rai += x
             for rec in bad:
                 rec["root"] = repr(root_issue)
-                ctx.violation(rec, replay=dict(part="issuing", root=list(root_issue), label=rec))
+                ctx.violation(rec, replay=dict(part="issuing", root=list(root_issue), app=rec["app"], issue=rec["issue"], depth=rec["depth"]))
         ctx.parts["issuing_lattice"] = dict(evaluations=nc, verified=ver, refused_unsigned=ref, raised=rai, roots=len(roots), depth=3)
     ctx.coverage.update(
         states=r.states, transitions=r.transitions + nb + nc, traces_validated_against_impl=r.transitions + nb + nc,
@@ -505,6 +514,9 @@ def replay(path):
         print(t, n, acc, bad[:5] or "ok")
         return 1 if bad else 0
     root = tuple(tuple(x) if isinstance(x, list) else x for x in rp["root"])
-    out = _issuing_job((root, 3, (0, 1, 2)))
-    print(out[:5], out[5][:5] or "ok")
-    return 1 if out[5] else 0
+    bad = []
+    for first in _level_options(1, 3, (0, 1, 2)):
+        out = _issuing_job((root, first, 3, (0, 1, 2)))
+        bad += out[5]
+    print(len(bad), "violating issuances below root", root, bad[:3] or "ok")
+    return 1 if bad else 0
